@@ -17,7 +17,7 @@ import (
 // Operations are drawn in two levels (category, then operation) from short
 // lists: rapid's integer draws favour small values, and one long weighted list
 // starves its tail.
-var categories = []string{"sort", "grow", "view", "append", "map", "sort", "bytes", "alias", "view", "map", "other", "grow", "create", "append", "map", "bytes"}
+var categories = []string{"sort", "grow", "view", "append", "map", "sort", "bytes", "alias", "view", "map", "other", "grow", "call", "create", "append", "map", "bytes", "call"}
 
 var catOps = map[string][]string{
 	"sort":   {"stable-sort"},
@@ -26,6 +26,7 @@ var catOps = map[string][]string{
 	"append": {"append", "append", "concat", "insert-sorted", "append", "insert-index"},
 	"map":    {"assoc!", "dissoc!", "alias", "assoc!", "assoc", "dissoc!", "dissoc", "keys", "get"},
 	"bytes":  {"append-bytes!", "append!", "alias", "append-bytes", "append", "slice", "to-bytes", "concat", "append-bytes!"},
+	"call":   {"call"},
 	"alias":  {"alias", "nth", "alias", "get"},
 	"other":  {"cons", "reverse", "map", "select", "zip", "reject", "concat", "insert-sorted"},
 	"create": {"vector", "quote", "sorted-map", "list", "to-bytes", "make-sequence", "vector", "quote"},
@@ -85,7 +86,7 @@ func genStep(t *rapid.T, first bool) Step {
 		nargs = rapid.IntRange(0, 4).Draw(t, "nargs")
 	case "append", "append!":
 		nargs = rapid.SampledFrom([]int{0, 0, 1, 1, 1, 2, 3}).Draw(t, "nargs")
-	case "cons", "insert-index", "insert-sorted", "assoc", "assoc!":
+	case "cons", "insert-index", "insert-sorted", "assoc", "assoc!", "call":
 		nargs = 1
 	}
 	for i := 0; i < nargs; i++ {
